@@ -1,6 +1,7 @@
 package main
 
 import (
+	"fmt"
 	"go/token"
 	"go/types"
 	"sort"
@@ -27,6 +28,7 @@ func init() {
 			{"C12-R3", "rule order preserved", c12r3},
 			{"C12-R4", "per-call route memos are keyed by everything that varies", c12r4},
 			{"C12-R5", "the source pre-filter is a conjunction of gateway / labels / namespace", c12r5},
+			{"C12-R6", "the table of real FQDNs is complete before virtual hosts are built", c12r6},
 		},
 	})
 }
@@ -431,4 +433,149 @@ func c12r5(c *Ctx) {
 	}
 	c.Check("sourceMatchHTTP has positive answers", fn.Pos(), n >= 2, "fewer non-false returns than expected")
 	c.Floor(4)
+}
+
+// C12-R6: the FQDN table is complete before the first virtual host is built. dedupeDomains drops an *expanded* short
+// name of a service when some other service really owns that name; the owners are looked up in a table the function only
+// reads. The table is therefore filled in a phase of its own: in the function that owns it, no insertion into the table
+// is reachable from a point where virtual hosts are already being built (a call of the builder literal or of
+// dedupeDomains). Which parameter is the read-only table is derived from dedupeDomains itself (set-typed parameters it
+// never writes).
+func c12r6(c *Ctx) {
+	p := c.P
+	pkgCore := "pilot/pkg/networking/core"
+	dd := p.Func(pkgCore, "", "dedupeDomains")
+	isWriteName := func(n string) bool {
+		return strings.HasPrefix(n, "Insert") || strings.HasPrefix(n, "Delete") || n == "Merge" || strings.HasSuffix(n, "InPlace")
+	}
+	var ro []int
+	for i, prm := range dd.Params {
+		if _, ok := prm.Type().Underlying().(*types.Map); !ok {
+			continue
+		}
+		written := false
+		for _, r := range *prm.Referrers() {
+			switch x := r.(type) {
+			case *ssa.MapUpdate:
+				written = true
+			case *ssa.Call:
+				if o := calleeObj(x); o != nil && isWriteName(o.Name()) && len(x.Call.Args) > 0 && x.Call.Args[0] == ssa.Value(prm) {
+					written = true
+				}
+			}
+		}
+		if !written {
+			ro = append(ro, i)
+		}
+	}
+	c.Check("dedupeDomains has a read-only lookup table", dd.Pos(), len(ro) >= 1, "no set-typed parameter of dedupeDomains is read-only any more")
+	n := 0
+	for _, cs := range p.staticCallers()[dd] {
+		user := cs.Parent()
+		if strings.HasSuffix(p.Fset.Position(user.Pos()).Filename, "_test.go") {
+			continue
+		}
+		for _, i := range ro {
+			arg := cs.Common().Args[i]
+			// resolve a captured variable to the owner's value
+			owner, table := user, arg
+			var lit *ssa.Function
+			fvArg := arg
+			if u, ok := arg.(*ssa.UnOp); ok && u.Op == token.MUL {
+				fvArg = u.X // captured by reference: the free variable is the cell
+			}
+			if fv, ok := fvArg.(*ssa.FreeVar); ok && user.Parent() != nil {
+				lit, owner = user, user.Parent()
+				idx := -1
+				for k, f := range user.FreeVars {
+					if f == fv {
+						idx = k
+					}
+				}
+				table = nil
+				eachInstr(owner, func(ins ssa.Instruction) {
+					if mk, ok := ins.(*ssa.MakeClosure); ok && mk.Fn == ssa.Value(user) && idx >= 0 {
+						table = mk.Bindings[idx]
+					}
+				})
+			}
+			if table == nil {
+				c.Check("owner of the FQDN table resolved", cs.Pos(), false, "the table handed to dedupeDomains could not be traced to the function that fills it")
+				continue
+			}
+			isTable := func(v ssa.Value) bool {
+				if v == table || sameValue(v, table) {
+					return true
+				}
+				// the table lives in a cell: loads of the same cell
+				if u, ok := v.(*ssa.UnOp); ok && u.Op == token.MUL {
+					if tu, ok := table.(*ssa.UnOp); ok && tu.Op == token.MUL && u.X == tu.X {
+						return true
+					}
+					if u.X == table {
+						return true
+					}
+				}
+				return false
+			}
+			isWrite := func(ins ssa.Instruction) bool {
+				switch x := ins.(type) {
+				case *ssa.MapUpdate:
+					return isTable(x.Map)
+				case *ssa.Call:
+					if o := calleeObj(x); o != nil && isWriteName(o.Name()) && len(x.Call.Args) > 0 && isTable(x.Call.Args[0]) {
+						return true
+					}
+				}
+				return false
+			}
+			isConsult := func(ins ssa.Instruction) bool {
+				call, ok := ins.(*ssa.Call)
+				if !ok {
+					return false
+				}
+				if lit == nil {
+					return ins == cs.(ssa.Instruction)
+				}
+				// a call of the builder literal (directly or through its cell)
+				v := call.Call.Value
+				if u, ok := v.(*ssa.UnOp); ok && u.Op == token.MUL {
+					for _, r := range *u.X.Referrers() {
+						if st, ok := r.(*ssa.Store); ok {
+							if mk, ok := st.Val.(*ssa.MakeClosure); ok && mk.Fn == ssa.Value(lit) {
+								return true
+							}
+						}
+					}
+				}
+				if mk, ok := v.(*ssa.MakeClosure); ok && mk.Fn == ssa.Value(lit) {
+					return true
+				}
+				return false
+			}
+			nW, nC := 0, 0
+			var bad ssa.Instruction
+			eachInstr(owner, func(ins ssa.Instruction) {
+				if isWrite(ins) {
+					nW++
+				}
+				if isConsult(ins) {
+					nC++
+					if w := pathAvoiding(owner, ins, func(ssa.Instruction) bool { return false }, isWrite); w != nil && bad == nil {
+						bad = w
+					}
+				}
+			})
+			n++
+			c.Check("FQDN table of "+owner.Name()+" is filled and consulted", owner.Pos(), nW >= 1 && nC >= 1, fmt.Sprintf("%d insertions, %d consulting calls found", nW, nC))
+			pos := owner.Pos()
+			if bad != nil {
+				pos = bad.Pos()
+			}
+			c.Check("the FQDN table is complete before the first virtual host is built: "+owner.Name(), pos, bad == nil,
+				"an insertion into the table of real service FQDNs is reachable after virtual hosts have started to be built: a host that is expanded earlier (a longer host with a VirtualService comes first) does not yet see the real owner of its short name, keeps the expanded domain, and the real service then loses its own domain to the duplicate check - requests for it are routed by the other host's rules")
+		}
+	}
+	c.Check("dedupeDomains callers found", dd.Pos(), n >= 1, "no caller of dedupeDomains resolved")
+	c.Floor(3)
 }
